@@ -33,7 +33,7 @@ class Line:
         self.kind, self.name, self.comment, self.directive, self.value = kind, name, comment, directive, value
 
     def __repr__(self) -> str:
-        body = {"F": "uint8 %s" % self.name, "K": "uint8 %s = 1" % self.name, "P": "void8", "D": "@" + self.directive, "M": "---", "C": "", "B": "", "W": "   ", "O": "@print _offset_", "X": "@%s %s" % (self.directive, ("'%s'" % self.value[1]) if self.value and self.value[0] == "String" else repr((self.value or ("", ""))[1]))}[self.kind]
+        body = {"F": "uint8 %s" % self.name, "T": "float7 %s" % self.name, "K": "uint8 %s = 1" % self.name, "P": "void8", "D": "@" + self.directive, "M": "---", "C": "", "B": "", "W": "   ", "O": "@print _offset_", "X": "@%s %s" % (self.directive, ("'%s'" % self.value[1]) if self.value and self.value[0] == "String" else repr((self.value or ("", ""))[1]))}[self.kind]
         if self.comment is not None:
             body = (body + " " if body else "") + "#" + self.comment
         return body
@@ -156,6 +156,14 @@ def drive(pm: ParserModel, me: Any, hook: Any, lines: Sequence[Line], final_eol:
         if el[0] == "ref" and el[1] == "identifier":
             return pm.visit(me, hook, "identifier", node({"D": line.directive, "X": line.directive, "O": "print"}.get(line.kind, line.name)), [])
         if el[0] == "ref" and el[1] == "type":
+            if line.kind == "T":
+                # a field whose *type* is faulty (`float7 x`): the fault is raised while the children of the statement are
+                # visited, before the statement's own visitor runs - with no location of its own
+                from ..absint import AExc
+
+                r_ = Raised("InvalidBitLengthError", ast.Constant(value=None))
+                r_.exc = AExc("InvalidBitLengthError")  # type: ignore
+                raise r_
             return uint8("type@%d" % i)
         if el[0] == "ref" and el[1] == "type_void":
             return Sym(_isa_=isa_of(ctx, "_serializable._void.VoidType"), _kind_="VoidType", bit_length=8, bit_length_set=TBls.of(8), alignment_requirement=1, label="void@%d" % i)
@@ -181,8 +189,8 @@ def drive(pm: ParserModel, me: Any, hook: Any, lines: Sequence[Line], final_eol:
             return Sym(_isa_=frozenset({"Any", "Primitive", "Rational"}), _kind_="Rational", label="value@%d" % i)
         return node(" ")
 
-    stmt_rule = {"F": "statement_field", "K": "statement_constant", "P": "statement_padding_field", "D": "statement_directive_without_expression", "M": "statement_service_response_marker", "O": "statement_directive_with_expression", "X": "statement_directive_with_expression"}
-    wrappers = {"F": ["statement_attribute", "statement"], "K": ["statement_attribute", "statement"], "P": ["statement_attribute", "statement"], "D": ["statement_directive", "statement"], "M": ["statement"], "O": ["statement_directive", "statement"], "X": ["statement_directive", "statement"]}
+    stmt_rule = {"F": "statement_field", "T": "statement_field", "K": "statement_constant", "P": "statement_padding_field", "D": "statement_directive_without_expression", "M": "statement_service_response_marker", "O": "statement_directive_with_expression", "X": "statement_directive_with_expression"}
+    wrappers = {"F": ["statement_attribute", "statement"], "T": ["statement_attribute", "statement"], "K": ["statement_attribute", "statement"], "P": ["statement_attribute", "statement"], "D": ["statement_directive", "statement"], "M": ["statement"], "O": ["statement_directive", "statement"], "X": ["statement_directive", "statement"]}
     all_lines = list(lines) + ([Line("B")] if final_eol else [])
     for i, ln in enumerate(all_lines):
         if i:
